@@ -6,6 +6,8 @@ package main
 
 import (
 	"bytes"
+	"crypto/sha256"
+	"encoding/hex"
 	"fmt"
 	"go/ast"
 	"go/parser"
@@ -13,6 +15,7 @@ import (
 	"go/token"
 	"os"
 	"path/filepath"
+	"regexp"
 	"sort"
 	"strconv"
 	"strings"
@@ -37,6 +40,8 @@ func leanStr(s string) string {
 	s = strings.ReplaceAll(s, "\n", "\\n")
 	return "\"" + s + "\""
 }
+
+func leanStrJSON(s string) string { return strconv.Quote(s) }
 
 func emit(w *bytes.Buffer, defName string, facts []fact) {
 	fmt.Fprintf(w, "def %s : List (String × List String) := [\n", defName)
@@ -67,6 +72,26 @@ func parseDir(dir string, files ...string) []*ast.File {
 	return out
 }
 
+// parseGlob parses every non-test Go file matching the pattern that builds on this platform
+// (files with a build constraint naming another OS are skipped by name suffix)
+func parseGlob(pattern string) []*ast.File {
+	ms, _ := filepath.Glob(pattern)
+	sort.Strings(ms)
+	var out []*ast.File
+	for _, m := range ms {
+		if strings.HasSuffix(m, "_test.go") {
+			continue
+		}
+		af, err := parser.ParseFile(fset, m, nil, 0)
+		if err != nil {
+			fmt.Fprintln(os.Stderr, "gofacts:", err)
+			os.Exit(1)
+		}
+		out = append(out, af)
+	}
+	return out
+}
+
 func funcName(fd *ast.FuncDecl) string {
 	if fd.Recv != nil && len(fd.Recv.List) > 0 {
 		t := fd.Recv.List[0].Type
@@ -76,6 +101,69 @@ func funcName(fd *ast.FuncDecl) string {
 		return src(t) + "." + fd.Name.Name
 	}
 	return fd.Name.Name
+}
+
+// ---- 0. source fingerprints ----
+//
+// One hash per function / type / var / const declaration of every modelled file (comments and
+// layout do not count: the declaration is re-printed from the comment-free AST with single
+// spaces) and one per C++ source file (comments stripped, white space collapsed). The Lean side
+// compares, per property, the hashes of the declarations its model was written from with the
+// hashes recorded when the model was last aligned with the code.
+
+func hashOf(s string) string {
+	h := sha256.Sum256([]byte(s))
+	return hex.EncodeToString(h[:])[:16]
+}
+
+func declHashes(files []*ast.File, prefix string) []fact {
+	var out []fact
+	for _, f := range files {
+		for _, d := range f.Decls {
+			switch x := d.(type) {
+			case *ast.FuncDecl:
+				out = append(out, fact{prefix + funcName(x), []string{hashOf(src(x))}})
+			case *ast.GenDecl:
+				if x.Tok == token.IMPORT {
+					continue
+				}
+				for _, sp := range x.Specs {
+					switch y := sp.(type) {
+					case *ast.TypeSpec:
+						out = append(out, fact{prefix + "type." + y.Name.Name, []string{hashOf(src(y))}})
+					case *ast.ValueSpec:
+						names := make([]string, len(y.Names))
+						for i, n := range y.Names {
+							names[i] = n.Name
+						}
+						out = append(out, fact{prefix + x.Tok.String() + "." + strings.Join(names, ","), []string{hashOf(src(y))}})
+					}
+				}
+			}
+		}
+	}
+	sort.Slice(out, func(i, j int) bool { return out[i].name < out[j].name })
+	return out
+}
+
+var cppComment = regexp.MustCompile(`(?s)/\*.*?\*/|//[^\n]*`)
+
+func cppHashes(repo string) []fact {
+	var out []fact
+	for _, pat := range []string{"cpp/*.cpp", "cpp/*.h", "cpp/private/*.cpp", "cpp/private/*.h", "cpp/ranges/*.cpp", "cpp/ranges/*.h"} {
+		ms, _ := filepath.Glob(filepath.Join(repo, pat))
+		for _, m := range ms {
+			b, err := os.ReadFile(m)
+			if err != nil {
+				continue
+			}
+			txt := strings.Join(strings.Fields(cppComment.ReplaceAllString(string(b), " ")), " ")
+			rel, _ := filepath.Rel(repo, m)
+			out = append(out, fact{"cpp:" + rel, []string{hashOf(txt)}})
+		}
+	}
+	sort.Slice(out, func(i, j int) bool { return out[i].name < out[j].name })
+	return out
 }
 
 // ---- 1. loop structure of the closed-form functions ----
@@ -410,8 +498,8 @@ func syncSkeleton(files []*ast.File, prefix string, want func(string) bool, deta
 }
 
 func main() {
-	if len(os.Args) != 3 {
-		fmt.Fprintln(os.Stderr, "usage: gofacts <repo> <out.lean>")
+	if len(os.Args) != 3 && len(os.Args) != 4 {
+		fmt.Fprintln(os.Stderr, "usage: gofacts <repo> <out.lean> [fingerprints.json]")
 		os.Exit(2)
 	}
 	repo := os.Args[1]
@@ -453,6 +541,90 @@ func main() {
 		return strings.HasPrefix(n, "workManager.") || n == "main" || n == "NewWorkManager"
 	}, true))
 	emit(&w, "seqinfoSkeleton", syncSkeleton(seqinfo, "", func(n string) bool { return n == "main" || n == "parse" }, true))
+
+	fastwalk := parseGlob(filepath.Join(repo, "cmd", "seqls", "internal", "fastwalk", "*.go"))
+	var fp []fact
+	fp = append(fp, declHashes(rangesFiles, "ranges.")...)
+	fp = append(fp, declHashes(rootFiles, "fileseq.")...)
+	fp = append(fp, declHashes(storage, "export.")...)
+	fp = append(fp, declHashes(seqls, "seqls.")...)
+	fp = append(fp, declHashes(fastwalk, "fastwalk.")...)
+	fp = append(fp, declHashes(seqinfo, "seqinfo.")...)
+	fp = append(fp, cppHashes(repo)...)
+	// per property: the declarations its model and specification were written from
+	all := []string{"fileseq.", "ranges."}
+	seqAPI := []string{"fileseq.NewFileSequence", "fileseq.FileSequence.", "fileseq.type.FileSequence", "fileseq.paddingMap.", "fileseq.multiHashPad.",
+		"fileseq.singleHashPad.", "fileseq.newMultiHashPad", "fileseq.newSingleHashPad", "fileseq.newPaddingMap", "fileseq.type.paddingMap",
+		"fileseq.type.multiHashPad", "fileseq.type.singleHashPad", "fileseq.type.paddingMapper", "fileseq.type.PadStyle", "fileseq.init",
+		"fileseq.var.", "fileseq.const.", "fileseq.zfillInt", "fileseq.zfillString", "fileseq.PaddingChars"}
+	frameSet := []string{"fileseq.NewFrameSet", "fileseq.FrameSet.", "fileseq.type.FrameSet", "fileseq.frameRangeMatches", "fileseq.parseInt",
+		"fileseq.isModifier", "fileseq.toRange", "fileseq.IsFrameRange", "fileseq.var.", "ranges."}
+	listing := append([]string{"fileseq.FindSequencesInList", "fileseq.findSequencesInList", "fileseq.newFileSequence", "fileseq.type.fileItem",
+		"fileseq.type.findSeqOptions", "fileseq.findSeqOptions.", "fileseq.type.FileOption", "fileseq.frameMinSize", "fileseq.FramesToFrameRange",
+		"fileseq.minMaxFrame", "fileseq.FileSequences."}, seqAPI...)
+	disk := append([]string{"fileseq.FindSequencesOnDisk", "fileseq.findSequencesOnDisk", "fileseq.ListFiles", "fileseq.FindSequenceOnDisk"}, listing...)
+	per := map[string][]string{
+		"C01": frameSet,
+		"C02": frameSet,
+		"C03": append(append([]string{}, seqAPI...), frameSet...),
+		"C04": append(append([]string{}, seqAPI...), frameSet...),
+		"C05": append(append([]string{}, listing...), frameSet...),
+		"C06": append(append([]string{}, disk...), frameSet...),
+		"C07": append(append([]string{}, disk...), frameSet...),
+		"C08": frameSet,
+		"C09": append([]string{"fileseq.FramesToFrameRange", "fileseq.zfillInt", "fileseq.zfillString"}, frameSet...),
+		"C10": seqAPI,
+		"C11": append([]string{"fileseq.PadFrameRange", "fileseq.zfillString", "fileseq.zfillInt"}, frameSet...),
+		"C12": append(append([]string{}, seqAPI...), frameSet...),
+		"C13": {"ranges."},
+		"C14": append(append([]string{}, seqAPI...), frameSet...),
+		"C15": all,
+		"C16": all,
+		"C17": append([]string{"seqls.", "fastwalk."}, all...),
+		"C18": append([]string{"seqinfo."}, all...),
+		"C19": append([]string{"cpp:"}, all...),
+		"C20": {"export."},
+	}
+	ids := make([]string, 0, len(per))
+	for id := range per {
+		ids = append(ids, id)
+	}
+	sort.Strings(ids)
+	var side strings.Builder
+	side.WriteString("{\n")
+	for _, id := range ids {
+		var sel []fact
+		for _, f := range fp {
+			for _, pre := range per[id] {
+				if strings.HasPrefix(f.name, pre) {
+					sel = append(sel, f)
+					break
+				}
+			}
+		}
+		// Lean compares one digest per property; the list itself goes to a side file so that a
+		// mismatch can be reported by declaration name
+		var cat strings.Builder
+		for _, f := range sel {
+			cat.WriteString(f.name + "=" + f.items[0] + "\n")
+		}
+		fmt.Fprintf(&w, "def sourceDigest%s : String := %s\n\n", id, leanStr(hashOf(cat.String())))
+		side.WriteString(leanStrJSON(id) + ": {")
+		for i, f := range sel {
+			if i > 0 {
+				side.WriteString(", ")
+			}
+			side.WriteString(leanStrJSON(f.name) + ": " + leanStrJSON(f.items[0]))
+		}
+		side.WriteString("}")
+		if id != ids[len(ids)-1] {
+			side.WriteString(",\n")
+		}
+	}
+	side.WriteString("\n}\n")
+	if len(os.Args) == 4 {
+		os.WriteFile(os.Args[3], []byte(side.String()), 0o644)
+	}
 
 	w.WriteString("end Gfs.Gen\n")
 	os.Remove(os.Args[2])
